@@ -122,6 +122,11 @@ func httpErrorFromResponse(statusCode int, contentType string, src *bytes.Buffer
 		stat.Code = int32(httpStatusCodeToRPC(statusCode)) //nolint:gosec
 		stat.Message = http.StatusText(statusCode)
 	}
+	if stat.GetCode() == 0 {
+		// The HTTP status says the call failed: a body that names no
+		// (or the OK) code cannot turn that into an error with code OK.
+		stat.Code = int32(httpStatusCodeToRPC(statusCode)) //nolint:gosec
+	}
 	connectErr := connect.NewWireError(
 		connect.Code(stat.GetCode()), //nolint:gosec // No information loss.
 		errors.New(stat.GetMessage()),
